@@ -625,6 +625,46 @@ def sym_max(a, b):
     return sym_if(c, a, b)
 
 
+def sym_extreme_n(items, is_max):
+    """max/min of several values as one definitional variable m: m >= x_i for all i and m == x_j for some j
+    (friendlier to the arithmetic solver than a chain of nested ites)."""
+    items = list(items)
+    if not any(isinstance(x, SR) for x in items):
+        r = items[0]
+        for x in items[1:]:
+            r = sym_max(r, x) if is_max else sym_min(r, x)
+        return r
+    conc = [x for x in items if not isinstance(x, SR)]
+    syms = []
+    seen = set()
+    for x in items:
+        if isinstance(x, SR):
+            k = x.key()
+            if k not in seen:
+                seen.add(k)
+                syms.append(x)
+    if conc:
+        c = max(conc) if is_max else min(conc)
+        syms.append(lift(c))
+    if len(syms) == 1:
+        return syms[0]
+    if len(syms) == 2:
+        return sym_max(syms[0], syms[1]) if is_max else sym_min(syms[0], syms[1])
+    key = ('ext', is_max, tuple(sorted(x.key() for x in syms)))
+    eng = ST.engine
+    m = eng.defs_cache.get(key)
+    if m is None:
+        mv = fresh_real('m')
+        zs = [x.z for x in syms]
+        if is_max:
+            eng.add_def(z3.And(z3.And(*[mv >= z for z in zs]), z3.Or(*[mv == z for z in zs])))
+        else:
+            eng.add_def(z3.And(z3.And(*[mv <= z for z in zs]), z3.Or(*[mv == z for z in zs])))
+        m = SR.atom(mv)
+        eng.defs_cache[key] = m
+    return m
+
+
 def sym_min(a, b):
     if not is_sym(a) and not is_sym(b):
         return a if a <= b else b
